@@ -483,6 +483,12 @@ def shape_class(spec: dict) -> tuple:
     return (len(lens), min(lens) if lens else 0, max(lens) if lens else 0, len(set(lens)) > 1)
 
 
+def _strict_flags(rng: random.Random, spec: dict) -> dict:
+    if spec["tool"] == "zip_strict" and rng.random() < 0.3:
+        spec["params"]["strict_flag"] = rng.choice([1, "obj"])
+    return spec
+
+
 def _same_objects(rng: random.Random, spec: dict) -> dict:
     # in some inputs every occurrence of a key is the very same OBJECT (a repeated sentinel, one record listed twice):
     # each occurrence is an item like any other
@@ -496,4 +502,4 @@ def agg_spec(rng: random.Random, name: str, maxlen: int = 8) -> dict:
 
 
 def iter_spec(rng: random.Random, name: str, maxlen: int = 8) -> dict:
-    return _same_objects(rng, _iter_spec_with_raw(rng, name, maxlen))
+    return _strict_flags(rng, _same_objects(rng, _iter_spec_with_raw(rng, name, maxlen)))
